@@ -148,6 +148,34 @@ def serializePrettyWith (esc : Escapers) (env : Env) (pr : TokenParams) (suppres
     (t : Tree) (start : Path) : Outcome XotError Str :=
   bufferToString (serializePrettyWriteWith esc env pr suppress t start)
 
+/-! ### The same in front of a writer that can fail -/
+
+/-- One iteration of `serialize_pretty`'s loop, in statement order:
+    `let (indentation, newline) = pretty.prettify(node, &output);`
+    `if indentation > 0 { w.write_all(" ".repeat(indentation * 2).as_bytes())?; }`
+    `self.serialize_node(w, node, output)?;`  (render — may fail —, token space, token text)
+    `if newline { w.write_all(b"\n")?; }`.
+    The indentation is offered to the writer before `render_output` can fail. -/
+def prettyStepCalls (esc : Escapers) (env : Env) (pr : TokenParams) (suppress : List Nat) (t : Tree)
+    (st : PStack × FStack) (po : Path × Output) : List Str × Outcome XotError (PStack × FStack) :=
+  let (ps', ind, nl) := prettifyAt suppress t st.1 po.1 po.2
+  let pre : List Str := if ind > 0 then [indentBytes ind] else []
+  match renderAtWith esc env pr t st.2 po.1 po.2 with
+  | .ok (s', tok) => (pre ++ tokenCalls tok ++ (if nl then [prettyNewline] else []), .ok (ps', s'))
+  | .err e => (pre, .err e)
+  | .panic => (pre, .panic)
+
+/-- `XmlSerializer::serialize_pretty(w, outputs, suppress)` with a writer that can fail. -/
+def writePrettyGoW (P : WriterPolicy) (esc : Escapers) (env : Env) (pr : TokenParams)
+    (suppress : List Nat) (t : Tree) :
+    List Str → PStack × FStack → List (Path × Output) → Str × Outcome XotError Unit :=
+  writeLoopW P (prettyStepCalls esc env pr suppress t)
+
+/-- The calls `serialize_pretty` makes when none is refused, and how it ends. -/
+def writePrettyGoCalls (esc : Escapers) (env : Env) (pr : TokenParams) (suppress : List Nat) (t : Tree) :
+    PStack × FStack → List (Path × Output) → List Str × Outcome XotError Unit :=
+  callsLoop (prettyStepCalls esc env pr suppress t)
+
 abbrev prettyTokens := prettyTokensWith xmlEscapers
 abbrev serializePrettyWrite := serializePrettyWriteWith xmlEscapers
 abbrev serializePretty := serializePrettyWith xmlEscapers
